@@ -805,7 +805,7 @@ class SetDimension(Dimension):
             # position is OOB (left side) of indices but can't round up
             raise IndexError("Position {} is out of bounds for SetDimension with mode {}".format(position, mode.name))
 
-        if position == 0 and mode == IndexMode.Less:
+        if np.isclose(position, 0) and mode == IndexMode.Less:
             raise IndexError("Position {} is out of bounds for SetDimension with mode {}".format(position, mode.name))
 
         if dim_labels is None:
